@@ -721,8 +721,10 @@ class Macro:
         off = len(arguments)
 
         # For information why this is necessary refer to the handling
-        # of caller in the `macro_body` handler in the compiler.
-        found_caller = False
+        # of caller in the `macro_body` handler in the compiler.  An
+        # explicit ``caller`` parameter counts as found no matter whether
+        # it was filled positionally, by keyword or by its default.
+        found_caller = self.explicit_caller
 
         # if the number of arguments consumed is not the number of
         # arguments expected we start filling in keyword arguments
